@@ -41,6 +41,9 @@ pub(crate) mod read;
 mod repl_helper;
 mod targets;
 pub(crate) mod types;
+#[cfg(feature = "verif-hooks")]
+#[allow(missing_docs)]
+pub mod verif;
 
 // Re-exports
 pub use machine::Machine;
